@@ -304,6 +304,18 @@ class Ctx:
                             for tg in rt[1]:
                                 if tg not in rt[2]:
                                     rem.add((bi, tg))
+                if rt is not None and rt[0][0] == "call" and rt[0][1].split("::")[-1] in ("call", "call_once", "call_mut") and "ops::Fn" in rt[0][1] and rt[0][2] and rt[0][2][0][0] == "closure" and self.level < 3:
+                    # a closure handed in by the caller and called here (`edit(list, &x)?`): Ok only if the closure can be
+                    cl_ = rt[0][2][0]
+                    cbq_ = self.prog.body(cl_[1])
+                    if cbq_ is not None:
+                        cargs_ = rt[0][2][1][1] if len(rt[0][2]) > 1 and rt[0][2][1][0] == "tuple" else ()
+                        cq_ = Ctx(cbq_, params={i_ + 2: a_ for i_, a_ in enumerate(cargs_)}, captures={n: v for _, n, v in cl_[2]}, assumptions=self.assumptions)
+                        cq_.level = self.level + 1
+                        if not success_exits(cq_.settle()):
+                            for tg in rt[1]:
+                                if tg not in rt[2]:
+                                    rem.add((bi, tg))
                 if rt is not None and rt[0][0] == "call":
                     cb = _callee_body(self.prog, rt[0])
                     if cb is not None and cb.key != self.body.key and cb.kind == "fn" and len(cb.blocks) < 120:
